@@ -265,6 +265,8 @@ enum AggregateState {
     SumInt(i64),
     /// Sum distinct state (integer, seen values).
     SumIntDistinct(i64, HashSet<HashableValue>),
+    /// Integer sum that overflowed `i64`: the result is NULL (never a wrapped value).
+    SumOverflow,
     /// Sum state (float).
     SumFloat(f64),
     /// Sum distinct state (float, seen values).
@@ -355,7 +357,10 @@ impl AggregateState {
             }
             AggregateState::SumInt(sum) => {
                 if let Some(Value::Int64(v)) = value {
-                    *sum += v;
+                    match sum.checked_add(v) {
+                        Some(s) => *sum = s,
+                        None => *self = AggregateState::SumOverflow,
+                    }
                 } else if let Some(Value::Float64(v)) = value {
                     // Convert to float sum
                     *self = AggregateState::SumFloat(*sum as f64 + v);
@@ -371,7 +376,10 @@ impl AggregateState {
                     let hashable = HashableValue::from(v);
                     if seen.insert(hashable) {
                         if let Value::Int64(i) = v {
-                            *sum += i;
+                            match sum.checked_add(*i) {
+                                Some(s) => *sum = s,
+                                None => *self = AggregateState::SumOverflow,
+                            }
                         } else if let Value::Float64(f) = v {
                             // Convert to float distinct
                             let seen_clone = seen.clone();
@@ -384,6 +392,7 @@ impl AggregateState {
                     }
                 }
             }
+            AggregateState::SumOverflow => {}
             AggregateState::SumFloat(sum) => {
                 if let Some(ref v) = value {
                     // Use value_to_f64 which now handles strings
@@ -501,6 +510,7 @@ impl AggregateState {
             AggregateState::SumInt(sum) | AggregateState::SumIntDistinct(sum, _) => {
                 Value::Int64(*sum)
             }
+            AggregateState::SumOverflow => Value::Null,
             AggregateState::SumFloat(sum) | AggregateState::SumFloatDistinct(sum, _) => {
                 Value::Float64(*sum)
             }
